@@ -71,6 +71,7 @@ type rproc struct {
 	term  Term
 	hist  bits
 	dead  bool
+	self  string // explicit provider name of the definition being executed ("" = none)
 }
 
 type Event struct {
@@ -96,6 +97,9 @@ func (r *Ref) freeBinds(p *rproc) []string {
 	FV(p.term, map[string]bool{}, out)
 	var names []string
 	for n := range out {
+		if p.self != "" && n == p.self {
+			continue
+		}
 		b, ok := p.env[n]
 		if !ok {
 			continue
@@ -128,8 +132,21 @@ func (r *Ref) spawn(provs []ch, env map[string]bind, t Term, h bits) *rproc {
 	return p
 }
 
+// isProv: does the name denote the process's own provider? `self`, the explicit provider
+// name of the current definition, or a name bound to the provider channel (the continuation
+// of a receive / case / shift on self stays an alias of it).
+func (r *Ref) isProv(p *rproc, n string) bool {
+	if n == "self" || n == "" || (p.self != "" && n == p.self) {
+		return true
+	}
+	if b, ok := p.env[n]; ok && len(p.provs) == 1 && b.c == p.provs[0] {
+		return true
+	}
+	return false
+}
+
 func (r *Ref) res(p *rproc, n string) bind {
-	if n == "self" {
+	if n == "self" || n == "" || (p.self != "" && n == p.self) {
 		return bind{c: p.provs[0]}
 	}
 	b, ok := p.env[n]
@@ -182,7 +199,8 @@ func (r *Ref) dup(p *rproc) {
 		for _, f := range names {
 			env[f] = bind{fresh[f][i], p.env[f].t}
 		}
-		r.spawn([]ch{p.provs[i]}, env, p.term, p.hist)
+		np := r.spawn([]ch{p.provs[i]}, env, p.term, p.hist)
+		np.self = p.self
 	}
 	for _, f := range names {
 		b := p.env[f]
@@ -262,7 +280,7 @@ func (r *Ref) step(p *rproc) bool {
 		p.term = x.K
 		return true
 	case *Send:
-		if x.To == "self" {
+		if r.isProv(p, x.To) {
 			r.put(p.provs[0], &rmsg{kind: "SND", c1: r.res(p, x.Payload), c2: r.res(p, x.Cont), hist: p.hist})
 		} else {
 			r.put(r.res(p, x.To).c, &rmsg{kind: "RCV", c1: r.res(p, x.Payload), c2: bind{c: p.provs[0]}, hist: p.hist})
@@ -270,7 +288,7 @@ func (r *Ref) step(p *rproc) bool {
 		p.dead = true
 		return true
 	case *Recv:
-		if x.From == "self" {
+		if r.isProv(p, x.From) {
 			m, ok := r.provRecv(p)
 			if !ok {
 				return false
@@ -306,7 +324,7 @@ func (r *Ref) step(p *rproc) bool {
 		p.term = x.K
 		return true
 	case *Sel:
-		if x.To == "self" {
+		if r.isProv(p, x.To) {
 			r.put(p.provs[0], &rmsg{kind: "SEL", label: x.Label, c1: r.res(p, x.Cont), hist: p.hist})
 		} else {
 			r.put(r.res(p, x.To).c, &rmsg{kind: "BRA", label: x.Label, c1: bind{c: p.provs[0]}, hist: p.hist})
@@ -314,7 +332,7 @@ func (r *Ref) step(p *rproc) bool {
 		p.dead = true
 		return true
 	case *Case:
-		if x.From == "self" {
+		if r.isProv(p, x.From) {
 			m, ok := r.provRecv(p)
 			if !ok {
 				return false
@@ -360,7 +378,7 @@ func (r *Ref) step(p *rproc) bool {
 		r.Err = "ref: no branch " + m.label
 		return false
 	case *Cast:
-		if x.To == "self" {
+		if r.isProv(p, x.To) {
 			r.put(p.provs[0], &rmsg{kind: "CST", c1: r.res(p, x.Cont), hist: p.hist})
 		} else {
 			r.put(r.res(p, x.To).c, &rmsg{kind: "SHF", c1: bind{c: p.provs[0]}, hist: p.hist})
@@ -368,7 +386,7 @@ func (r *Ref) step(p *rproc) bool {
 		p.dead = true
 		return true
 	case *Shift:
-		if x.From == "self" {
+		if r.isProv(p, x.From) {
 			m, ok := r.provRecv(p)
 			if !ok {
 				return false
@@ -419,10 +437,7 @@ func (r *Ref) step(p *rproc) bool {
 			b := r.res(p, args[i])
 			env[q.N] = bind{b.c, q.T}
 		}
-		if d.Prov != "" {
-			// explicit provider name: denotes the caller's provider
-			env[d.Prov] = bind{p.provs[0], d.Res}
-		}
+		p.self = d.Prov // explicit provider name: a synonym of self inside this body
 		p.env = env
 		p.term = d.Body
 		return true
